@@ -49,6 +49,8 @@ Qed.
 Definition m_jump : vmsg := wmsg KPrevote 1 [([1], [0; 1])].
 Definition o_jump : op := OpPrevote m_jump.
 Definition w_jump : kstate := run1 w0 o_jump.
+Definition sm_jump : kstate :=
+  match merge_point KPrevote w0 m_jump with Some (_, sm) => sm | None => w0 end.
 
 Example round_change_example :
   reachable_b 1 wvs w0 /\ vote_op o_jump = Some (KPrevote, m_jump) /\
@@ -56,13 +58,13 @@ Example round_change_example :
   v_h (k_vot w_jump) = v_h (k_vot w0) /\ v_r (k_vot w_jump) <> v_r (k_vot w0) /\
   nowrap (vs_pows (v_vals (k_vot w0))) /\
   v_r (k_vot w_jump) = 1 /\
-  exists sm, merge_point KPrevote w0 m_jump = Some (ViewIDNextRound, sm) /\
-             sm_tpv (v_sum (k_nxt sm)) = 2 /\ byz_minority (sm_avail (v_sum (k_nxt sm))) = Ok 2.
+  merge_point KPrevote w0 m_jump = Some (ViewIDNextRound, sm_jump) /\
+  sm_tpv (v_sum (k_nxt sm_jump)) = 2 /\ byz_minority (sm_avail (v_sum (k_nxt sm_jump))) = Ok 2.
 Proof.
   split; [apply w0_reachable|]. split; [reflexivity|]. split; [vm_compute; reflexivity|].
   split; [vm_compute; reflexivity|]. split; [vm_compute; discriminate|].
   split; [vm_compute; reflexivity|]. split; [vm_compute; reflexivity|].
-  eexists. split; [vm_compute; reflexivity|]. vm_compute. split; reflexivity.
+  split; [vm_compute; reflexivity|]. vm_compute. split; reflexivity.
 Qed.
 
 (** ** (2a) refuted: three of four validators precommit nil in round 1 while the mirror votes in
@@ -86,7 +88,8 @@ Proof.
   split; [vm_compute; discriminate|]. split; [vm_compute; discriminate|]. vm_compute; reflexivity.
 Qed.
 
-(** ** (3): one of four validators alone, even equivocating in both kinds and both rounds, moves nothing *)
+(** ** (3): one of four validators alone moves nothing, even when it equivocates: its two prevotes for
+    round 1 give block powers 1 + 1 = 2 = the minority, but a total of 1 *)
 Definition m_min : vmsg := wmsg KPrevote 1 [([1], [0]); ([2], [0])].
 Definition o_min : op := OpPrevote m_min.
 Definition w_min : kstate := run1 w0 o_min.
@@ -119,7 +122,7 @@ Proof.
     - exfalso. revert H. apply genuine_in_nil; vm_compute; reflexivity.
     - destruct H as (key&kind&t&p&_&Hk&Hin&Hi).
       destruct Hk as [->| ->]; vm_compute in Hin.
-      + destruct Hin as [E|[E|[]]]; inversion E; subst p; destruct Hi as [E'|[]]; inversion E'; left; reflexivity.
+      + destruct Hin as [E|[E|[]]]; inversion E; subst; destruct Hi as [E'|[]]; inversion E'; left; reflexivity.
       + destruct Hin. }
   split; [vm_compute; reflexivity|]. split; [vm_compute; reflexivity|]. split; vm_compute; reflexivity.
 Qed.
@@ -152,7 +155,7 @@ Proof.
     - exfalso. revert H. apply genuine_in_nil; vm_compute; reflexivity.
     - destruct H as (key&kind&t&p&_&Hk&Hin&Hi).
       destruct Hk as [->| ->]; vm_compute in Hin.
-      + destruct Hin as [E|[]]; inversion E; subst p; destruct Hi as [E'|[]]; inversion E'; right; left; reflexivity.
+      + destruct Hin as [E|[]]; inversion E; subst; destruct Hi as [E'|[]]; inversion E'; right; left; reflexivity.
       + destruct Hin. }
   split; [vm_compute; reflexivity|]. split; [vm_compute; reflexivity|]. vm_compute; discriminate.
 Qed.
@@ -172,5 +175,5 @@ Theorem replay_moves_round_without_certificate :
 Proof.
   exists 1, wvs, w0, bad_hdr, bad_cp, w_replay.
   split; [lia|]. split; [reflexivity|]. split; [apply w0_reachable|].
-  split; [cbn; unfold two64; lia|]. split; [vm_compute; reflexivity|]. repeat split.
+  split; [vm_compute; reflexivity|]. split; [vm_compute; reflexivity|]. vm_compute. repeat split.
 Qed.
